@@ -262,7 +262,7 @@ def ordered_union(ref, others):
     return out
 
 
-def _set_body(n, rem, name, nops, masks, kinds):
+def _set_body(n, rem, name, nops, masks, kinds, rev=0):
     s, ref, cl = build(n, rem, 0, 1)
     if cl:
         return fail(cl)
@@ -273,7 +273,8 @@ def _set_body(n, rem, name, nops, masks, kinds):
     uni = present + [801, 802]
     ops_l = []      # operand contents in a definite order
     for mask in masks[:nops]:
-        ops_l.append([uni[i] for i in (3, 0, 2, 1) if mask & (1 << i)])
+        order = (3, 1, 2, 0) if rev else (0, 3, 1, 2)     # ordered operands list common items in either relative order
+        ops_l.append([uni[i] for i in order if mask & (1 << i)])
     operands = [KINDS[kinds[i]](ops_l[i]) for i in range(nops)]
     ordered = [list(o) for o in operands]            # iteration order of each operand as passed
     before_ops = [list(o) for o in operands]
@@ -400,7 +401,7 @@ def _set_body(n, rem, name, nops, masks, kinds):
     return done(True, kind='two_operands' if nops == 2 else 'operands_%d' % nops, op=name, n=n, nops=nops)
 
 
-def iset_set(n: int, nrem: int, r0: int, op: int, nops: int, m0: int, m1: int, k0: int, k1: int) -> bool:
+def iset_set(n: int, nrem: int, r0: int, op: int, nops: int, m0: int, m1: int, k0: int, k1: int, rev: int) -> bool:
     """
     pre: 0 <= n <= 5 and 0 <= nrem <= 1 and 0 <= nops <= 2 and 0 <= m0 <= 15 and 0 <= m1 <= 15 and 0 <= k0 <= 4 and 0 <= k1 <= 4
     post: _
@@ -417,11 +418,12 @@ def iset_set(n: int, nrem: int, r0: int, op: int, nops: int, m0: int, m1: int, k
         masks.append(cz(m1, 0, 7) * 2)
     k0 = pin('k0', k0, 0, 4)
     kinds = [k0, (k0 + 2) % 5]
+    rev = cz(rev, 0, 1) if (k0 >= 2 and nops >= 1 and bin(masks[0]).count('1') >= 2) else 0
     with notrace():
         old = setutils._COMPACTION_FACTOR
         try:
             setutils._COMPACTION_FACTOR = 2
-            return _set_body(n, rem, SET_OPS[op], nops, masks, kinds)
+            return _set_body(n, rem, SET_OPS[op], nops, masks, kinds, rev)
         finally:
             setutils._COMPACTION_FACTOR = old
 
